@@ -5,6 +5,7 @@ package ice
 // Read call (all chunkings, injected error), against a reference deframer.
 
 import (
+	"os"
 	"sync"
 	"strings"
 	"testing/synctest"
@@ -524,6 +525,13 @@ func checkC14(c *runCtx) {
 	}
 	c.sample(map[string]any{"part": "activeTCPConn over loopback", "scenarios": "frames of 1/255/8192 bytes inbound (written byte-wise and at once) and outbound; inbound frames of 40/1000/8192 bytes in three segments with an outbound packet written and received between the segments; an oversized frame whose body is well-formed frames; a garbage stream"})
 
+	// the receiving side of a TCP mux connection under the controlled scheduler: a read whose deadline has passed
+	// either returns the queued packet or times out, it never takes the packet away (the select inside is a choice point)
+	if os.Getenv("VERIF_VARIANT") == "instr" {
+		csExplore(c, "tcpconn-deadline-read", 3, time.Now().Add(120*time.Second), nil)
+	} else {
+		c.capHit("built without instrumentation: the deadline-read interleavings were not run")
+	}
 	c.set("evaluations", evals)
 	c.set("distinct_nontrivial", nontrivial)
 	c.set("rule", "an evaluation is one complete run of the real reader/writer over one (stream, buffer, sequence of transport answers); executions are generated by depth-first enumeration of every answer sequence, so all are distinct; non-trivial = at least one short read / injected fault / hostile stream / boundary length (default full-read runs are not counted)")
